@@ -88,9 +88,9 @@ def path(ctx, cfg):
 
     def check_call(c):
         """Metropolis rule, checked as soon as the proposal has been evaluated (rejected proposals end in a pruned path)"""
-        if len(c["draws"]) != 1:
+        if len(c["draws"]) > 1:
             return
-        r = c["draws"][0]["result"]
+        r = c["draws"][0]["result"] if c["draws"] else None
         u0, v0 = c["u0"], c["v0"]
         num, den, missing = 1, 1, []
 
@@ -112,8 +112,16 @@ def path(ctx, cfg):
             num = num * weight(u0, v1, t)
             den = den * weight(v0, v1, t)
         d2 = f"{desc}: proposal corners {c['e0s']} <-> {c['e1s']} result={c['res']}"
+        if r is None and missing:
+            return  # decided without a draw because a pairing is absent from the target (the created-pairing obligations judge the outcome)
         ctx.require(not missing, "metropolis-rule", f"{d2}: the test was evaluated without consulting pairings {missing}", sig="metropolis:unconsulted")
         if missing:
+            return
+        if r is None:
+            # no uniform variate was drawn for this proposal: only legitimate when the outcome does not depend on one
+            # (accept with ratio >= 1, reject with ratio 0) for every target weight on this path
+            ctx.require((num >= den) if c["res"] else (num <= 0), "metropolis-rule",
+                        f"{d2}: decided without drawing a uniform variate although the ratio can lie strictly between 0 and 1", logic="QF_NRA", sig="metropolis:no-draw")
             return
         cond = (r * den < num) if c["res"] else (r * den >= num)
         ctx.require(cond, "metropolis-rule", f"{d2}: acceptance is not equivalent to r < prod(new pairings)/prod(old pairings)",
